@@ -867,4 +867,218 @@ theorem namesPure_sim (c : Cls) (enc : Enc) (hdr : Bytes) (img : Bytes) (k : Nat
       rw [withName_eq, withName_eq]
       exact hab.name _ _
 
+/-! ### segments in both runs -/
+
+/-- the eight program header fields -/
+structure SegFields (g' g : Seg) : Prop where
+  stype : g'.stype = g.stype
+  flags : g'.flags = g.flags
+  offset : g'.offset = g.offset
+  vaddr : g'.vaddr = g.vaddr
+  paddr : g'.paddr = g.paddr
+  filesz : g'.filesz = g.filesz
+  memsz : g'.memsz = g.memsz
+  align : g'.align = g.align
+
+theorem decodePhdr_fields (c : Cls) (enc : Enc) (r : Bytes) (g g' : Seg) :
+    SegFields (decodePhdr c enc r g) (decodePhdr c enc r g') := by
+  cases c <;> constructor <;> rfl
+
+theorem SegFields.trans {a b c : Seg} (h1 : SegFields a b) (h2 : SegFields b c) : SegFields a c :=
+  ⟨h1.stype.trans h2.stype, h1.flags.trans h2.flags, h1.offset.trans h2.offset, h1.vaddr.trans h2.vaddr,
+   h1.paddr.trans h2.paddr, h1.filesz.trans h2.filesz, h1.memsz.trans h2.memsz, h1.align.trans h2.align⟩
+
+/-- a segment of the prefix run against the same segment of the complete run: identical -/
+structure SegRel (gp gf : Seg) : Prop where
+  fields : SegFields gp gf
+  data : gp.data = gf.data
+  index : gp.index = gf.index
+  secs : gp.secs = gf.secs
+
+theorem segLoadDataPure_rel {img : Bytes} {k : Nat} {gp gf : Seg} (hs : SegFields gp gf)
+    (hdp : gp.data = none) (hdf : gf.data = none)
+    (hp : LoadedSeg [] gp (img.take k)) (hf : LoadedSeg [] gf img)
+    (hlen : img.length < 9223372036854775808)
+    (hok : (segLoadDataPure (img.take k) gp).2 = true) :
+    (segLoadDataPure img gf).2 = true ∧
+    SegFields (segLoadDataPure (img.take k) gp).1 (segLoadDataPure img gf).1 ∧
+    (segLoadDataPure (img.take k) gp).1.data = (segLoadDataPure img gf).1.data := by
+  have hlk := take_length_le img k
+  unfold segLoadDataPure at hok ⊢
+  rw [← hs.stype, ← hs.filesz, ← hs.offset]
+  by_cases h0 : seg64_load_data_skip gp.stype gp.filesz = true
+  · simp only [h0, if_true]
+    exact ⟨trivial, hs, hdp.trans hdf.symm⟩
+  rw [if_neg h0] at hok
+  rw [if_neg h0, if_neg h0]
+  by_cases h1 : sec64_load_data_off_gt gp.offset gp.streamSize = true
+  · simp [h1] at hok
+  rw [if_neg h1] at hok
+  by_cases h2 : sec64_load_data_size_gt gp.filesz gp.streamSize gp.offset = true
+  · simp [h2] at hok
+  rw [if_neg h2] at hok
+  by_cases h4 : sec64_load_data_sizet gp.filesz = true
+  · simp [h4] at hok
+  have hle := g_size_gt_false (by simpa using h2) (g_off_gt_false (by simpa using h1))
+  have hssp : gp.streamSize = BitVec.ofNat 64 (img.take k).length := by
+    rcases hp.ss with ⟨-, hss⟩ | ⟨-, hn⟩
+    · exact hss
+    · exact absurd (hn rfl).1 h0
+  have hssf : gf.streamSize = BitVec.ofNat 64 img.length := by
+    rcases hf.ss with ⟨-, hss⟩ | ⟨-, hn⟩
+    · exact hss
+    · have := (hn rfl).1; rw [← hs.stype, ← hs.filesz] at this; exact absurd this h0
+  rw [hssp, toNat_ofNat_len (by omega)] at hle
+  have hle' : gp.offset.toNat + gp.filesz.toNat ≤ gf.streamSize.toNat := by
+    rw [hssf, toNat_ofNat_len (by omega)]; omega
+  rw [if_neg h1, if_neg h2, if_neg h4, if_neg (by rw [g_off_gt_of_le (by omega)]; decide),
+    if_neg (by rw [g_size_gt_of_le hle']; decide), if_neg h4]
+  refine ⟨rfl, ⟨rfl, hs.flags, rfl, hs.vaddr, hs.paddr, rfl, hs.memsz, hs.align⟩, ?_⟩
+  simp only
+  rw [slice_take (by omega)]
+
+@[simp] theorem segHdr_data (c enc tr st p l) : (segHdr c enc tr st p l).data = none := by simp [segHdr]
+@[simp] theorem segHdr_isLoaded (c enc tr st p l) : (segHdr c enc tr st p l).isLoaded = false := by simp [segHdr]
+
+/-- **one segment in both runs**: if the prefix run's `segment_impl::load` succeeds and leaves the
+    stream good, the complete run's does too, and yields the identical segment -/
+theorem segLoad_sim (c : Cls) (enc : Enc) (img : Bytes) (k : Nat) (kind : StreamKind)
+    (hlen : img.length < 9223372036854775808) (lsp lsf : LoadSt) (h : Sim2 img k kind lsp lsf)
+    (hdrOff : Int) (isLazy : Bool)
+    (hok : (segLoad c enc [] lsp hdrOff isLazy).2.2 = true)
+    (hnf : (segLoad c enc [] lsp hdrOff isLazy).1.st.fail = false) :
+    (segLoad c enc [] lsf hdrOff isLazy).2.2 = true ∧
+    (segLoad c enc [] lsf hdrOff isLazy).1.st.fail = false ∧
+    SegFields (segLoad c enc [] lsp hdrOff isLazy).2.1 (segLoad c enc [] lsf hdrOff isLazy).2.1 ∧
+    (segLoad c enc [] lsp hdrOff isLazy).2.1.data = (segLoad c enc [] lsf hdrOff isLazy).2.1.data ∧
+    Sim2 img k kind (segLoad c enc [] lsp hdrOff isLazy).1 (segLoad c enc [] lsf hdrOff isLazy).1 := by
+  have hlk := take_length_le img k
+  obtain ⟨-, hfull, hshort⟩ := hdrRead_sim h.sim hdrOff (phdrSize c) (Nat.pos_of_ne_zero (phdrSize_ne_zero c))
+  have specP := segLoad_spec c enc [] lsp hdrOff isLazy (img.take k) kind h.p
+  have specF := segLoad_spec c enc [] lsf hdrOff isLazy img kind h.f
+  by_cases hg : (hdrRead [] lsp.st hdrOff (phdrSize c)).1.gcount = phdrSize c
+  · obtain ⟨g1, g2, g3, g4, -, -, -⟩ := hfull hg
+    have hfields : SegFields (segHdr c enc [] lsp.st hdrOff isLazy) (segHdr c enc [] lsf.st hdrOff isLazy) := by
+      unfold segHdr; rw [g2]; exact decodePhdr_fields c enc _ _ _
+    rw [segLoad_eq] at hok hnf
+    rw [segLoad_eq c enc [] lsp, segLoad_eq c enc [] lsf]
+    simp only [segHdr_isLoaded, Bool.or_false] at hok hnf ⊢
+    by_cases hl : (!isLazy) = true
+    · rw [if_pos hl] at hok hnf
+      rw [if_pos hl, if_pos hl]
+      have iP := segHdr_inv c enc [] lsp.st hdrOff isLazy (img.take k) h.p.data
+      have iF := segHdr_inv c enc [] lsf.st hdrOff isLazy img h.f.data
+      obtain ⟨pP, fP⟩ := segLoadData_pure c { lsp with st := (hdrRead [] lsp.st hdrOff (phdrSize c)).1 } _
+        (img.take k) (by simp [h.p.data]) iP (by omega)
+      obtain ⟨pF, fF⟩ := segLoadData_pure c { lsf with st := (hdrRead [] lsf.st hdrOff (phdrSize c)).1 } _
+        img (by simp [h.f.data]) iF hlen
+      have hok' : (segLoadDataPure (img.take k) (segHdr c enc [] lsp.st hdrOff isLazy)).2 = true := by
+        rw [← pP]; exact hok
+      obtain ⟨r1, r2, r3⟩ := segLoadDataPure_rel hfields (by simp) (by simp) iP iF hlen hok'
+      have e1 : (segLoadData c [] { lsp with st := (hdrRead [] lsp.st hdrOff (phdrSize c)).1 }
+          (segHdr c enc [] lsp.st hdrOff isLazy)).2.1 =
+          (segLoadDataPure (img.take k) (segHdr c enc [] lsp.st hdrOff isLazy)).1 := by rw [pP]
+      have e2 : (segLoadData c [] { lsf with st := (hdrRead [] lsf.st hdrOff (phdrSize c)).1 }
+          (segHdr c enc [] lsf.st hdrOff isLazy)).2.1 =
+          (segLoadDataPure img (segHdr c enc [] lsf.st hdrOff isLazy)).1 := by rw [pF]
+      have e3 : (segLoadData c [] { lsf with st := (hdrRead [] lsf.st hdrOff (phdrSize c)).1 }
+          (segHdr c enc [] lsf.st hdrOff isLazy)).2.2 = true := by rw [pF]; exact r1
+      have hFf : (segLoadData c [] { lsf with st := (hdrRead [] lsf.st hdrOff (phdrSize c)).1 }
+          (segHdr c enc [] lsf.st hdrOff isLazy)).1.st.fail = false := fF.trans g4
+      refine ⟨e3, hFf, by rw [e1, e2]; exact r2, by rw [e1, e2]; exact r3, ?_⟩
+      have sP := specP.1; have sF := specF.1
+      rw [segLoad_eq] at sP sF
+      simp only [segHdr_isLoaded, Bool.or_false] at sP sF
+      rw [if_pos hl] at sP sF
+      exact ⟨sP, sF, fun hx => by rw [hFf] at hx; exact absurd hx (by decide)⟩
+    · rw [if_neg hl, if_neg hl]
+      refine ⟨rfl, g4, hfields, by simp, ?_⟩
+      have sP := specP.1; have sF := specF.1
+      rw [segLoad_eq] at sP sF
+      simp only [segHdr_isLoaded, Bool.or_false] at sP sF
+      rw [if_neg hl] at sP sF
+      exact ⟨sP, sF, fun hx => by rw [g4] at hx; exact absurd hx (by decide)⟩
+  · -- a short program header read leaves the prefix stream failed: excluded by `hnf`
+    have hfl := hshort hg
+    rw [segLoad_eq] at hnf
+    split at hnf
+    · rw [segLoadData_fail_mono c [] _ _ hfl] at hnf; exact absurd hnf (by decide)
+    · rw [hfl] at hnf; exact absurd hnf (by decide)
+
+theorem SecRel.fields_of_not_failed {bp bf : SecBuf} (h : SecRel false bp bf) : SameFields bp bf := by
+  cases h with
+  | zero hf _ => exact absurd hf (by decide)
+  | never hs _ _ => exact hs
+  | both hs _ _ _ _ => exact hs
+
+theorem memberOf_congr {gp gf : Seg} {bp bf : SecBuf} (hg : SegFields gp gf) (hb : SameFields bp bf) :
+    memberOf gp bp = memberOf gf bf := by
+  unfold memberOf
+  rw [hg.offset, hg.filesz, hg.vaddr, hg.memsz, hg.stype, hb.flags, hb.addr, hb.size, hb.offset]
+
+theorem fail_false_of_mono {a b : Bool} (hm : a = true → b = true) (hb : b = false) : a = false := by
+  cases a
+  · rfl
+  · rw [hm rfl] at hb; exact absurd hb (by decide)
+
+/-- the segment loop in both runs: if the prefix run's loop succeeds, the complete run's loop
+    succeeds with identical segments (member lists included); and if there is at least one
+    segment, the prefix stream had not failed before the loop -/
+theorem loadSegmentsLoop_sim (c : Cls) (enc : Enc) (img : Bytes) (k : Nat) (kind : StreamKind)
+    (hlen : img.length < 9223372036854775808) (isLazy : Bool) (phoff : Int) (entsize : Nat)
+    (secsp secsf : List SecBuf) :
+    ∀ (n i : Nat) (lsp lsf : LoadSt) (accp accf : List Seg), Sim2 img k kind lsp lsf →
+      (lsp.st.fail = false → ListRel (SecRelI false) secsp secsf) → ListRel SegRel accp accf →
+      (loadSegmentsLoop c enc [] isLazy phoff entsize secsp n i lsp accp).2.2 = true →
+      (loadSegmentsLoop c enc [] isLazy phoff entsize secsf n i lsf accf).2.2 = true ∧
+      ListRel SegRel (loadSegmentsLoop c enc [] isLazy phoff entsize secsp n i lsp accp).2.1
+        (loadSegmentsLoop c enc [] isLazy phoff entsize secsf n i lsf accf).2.1 ∧
+      (0 < n → lsp.st.fail = false) := by
+  intro n
+  induction n with
+  | zero =>
+    intro i lsp lsf accp accf _ _ hacc _
+    exact ⟨rfl, hacc.reverse, fun h => absurd h (by omega)⟩
+  | succ n ih =>
+    intro i lsp lsf accp accf hs hsecs hacc hok
+    rw [loadSegmentsLoop_succ] at hok
+    rw [loadSegmentsLoop_succ, loadSegmentsLoop_succ]
+    by_cases hc : (!(segLoad c enc [] lsp (phoff + (Int.ofNat i) * (Int.ofNat entsize)) isLazy).2.2 ||
+        (segLoad c enc [] lsp (phoff + (Int.ofNat i) * (Int.ofNat entsize)) isLazy).1.st.fail) = true
+    · rw [if_pos hc] at hok; exact Bool.noConfusion hok
+    · rw [if_neg hc] at hok
+      rw [if_neg hc]
+      have hokp : (segLoad c enc [] lsp (phoff + (Int.ofNat i) * (Int.ofNat entsize)) isLazy).2.2 = true := by
+        cases hx : (segLoad c enc [] lsp (phoff + (Int.ofNat i) * (Int.ofNat entsize)) isLazy).2.2
+        · rw [hx] at hc; exact absurd rfl hc
+        · rfl
+      have hnfp : (segLoad c enc [] lsp (phoff + (Int.ofNat i) * (Int.ofNat entsize)) isLazy).1.st.fail = false := by
+        cases hx : (segLoad c enc [] lsp (phoff + (Int.ofNat i) * (Int.ofNat entsize)) isLazy).1.st.fail
+        · rfl
+        · rw [hx] at hc; exact absurd (Bool.or_true _) hc
+      obtain ⟨f1, f2, f3, f4, f5⟩ := segLoad_sim c enc img k kind hlen lsp lsf hs _ isLazy hokp hnfp
+      rw [if_neg (by rw [f1, f2]; decide)]
+      have hnf0 : lsp.st.fail = false :=
+        fail_false_of_mono (segLoad_fail_mono c enc [] lsp _ isLazy) hnfp
+      have hrel := hsecs hnf0
+      have hmem : (secsp.filter (memberOf (segLoad c enc [] lsp (phoff + (Int.ofNat i) * (Int.ofNat entsize)) isLazy).2.1)).map
+            (fun b => BitVec.ofNat 16 b.index) =
+          (secsf.filter (memberOf (segLoad c enc [] lsf (phoff + (Int.ofNat i) * (Int.ofNat entsize)) isLazy).2.1)).map
+            (fun b => BitVec.ofNat 16 b.index) :=
+        hrel.filter_map _ _ _ _ (fun a b hab =>
+          ⟨memberOf_congr f3 hab.1.fields_of_not_failed, by rw [hab.2]⟩)
+      have hacc' : ListRel SegRel
+          ({ (segLoad c enc [] lsp (phoff + (Int.ofNat i) * (Int.ofNat entsize)) isLazy).2.1 with
+              index := i,
+              secs := (secsp.filter (memberOf (segLoad c enc [] lsp (phoff + (Int.ofNat i) * (Int.ofNat entsize)) isLazy).2.1)).map
+                        (fun b => BitVec.ofNat 16 b.index) } :: accp)
+          ({ (segLoad c enc [] lsf (phoff + (Int.ofNat i) * (Int.ofNat entsize)) isLazy).2.1 with
+              index := i,
+              secs := (secsf.filter (memberOf (segLoad c enc [] lsf (phoff + (Int.ofNat i) * (Int.ofNat entsize)) isLazy).2.1)).map
+                        (fun b => BitVec.ofNat 16 b.index) } :: accf) :=
+        .cons ⟨⟨f3.stype, f3.flags, f3.offset, f3.vaddr, f3.paddr, f3.filesz, f3.memsz, f3.align⟩,
+            f4, rfl, hmem⟩ hacc
+      obtain ⟨r1, r2, -⟩ := ih (i + 1) _ _ _ _ f5 (fun _ => hrel) hacc' hok
+      exact ⟨r1, r2, fun _ => hnf0⟩
+
 end ElfioVerif.C17
